@@ -5,7 +5,7 @@
    order of the set `to_delete` (for x in to_delete) is NOT modelled: the functions iterate the images in the order in
    which the pattern atoms are given, and the correspondence runner passes them in the observed iteration order.
    Python dicts are association lists in insertion order.  list.pop() takes from the END of a Python list: stacks are
-   kept reversed (head = top), list.extend(l) is `push l`. *)
+   kept reversed (head = top), list.append(m) is `m :: stack`. *)
 From Coq Require Import ZArith List Bool Lia.
 From Model Require Import PyBase Graph.
 Import ListNotations.
@@ -16,7 +16,6 @@ Definition zadd (x : Z) (l : list Z) : list Z := if zmem x l then l else x :: l.
 Definition zunion (a b : list Z) : list Z := fold_right zadd b a.                        (* b.update(a) *)
 Definition zdiff (a b : list Z) : list Z := filter (fun x => negb (zmem x b)) a.         (* a.difference(b) *)
 Definition zinter (a b : list Z) : list Z := filter (fun x => zmem x b) a.               (* a.intersection(b) *)
-Definition push (l stack : list Z) : list Z := rev l ++ stack.                           (* stack.extend(l) *)
 
 Fixpoint zinsert (x : Z) (l : list Z) : list Z :=
   match l with [] => [x] | y :: r => if x <=? y then x :: l else y :: zinsert x r end.
@@ -39,76 +38,68 @@ Definition zmax_list (l : list Z) : option Z :=                                 
   match l with [] => None | x :: r => Some (fold_left Z.max r x) end.
 
 (* ====================================================================================================
-   BaseReactor._get_deleted (UNCHANGED code, with the shared `global_seen`)
+   BaseReactor._get_deleted (the code after fix: b90326c -- every piece that lost a bond to a deleted atom is walked
+   COMPLETELY, stopping only at deleted and at kept matched atoms, and is classified once into `keep` or `delete`)
    ==================================================================================================== *)
 Inductive walk_res :=
-| WBreak (gs seen : list Z)      (* the while loop left by `break`: a kept matched atom was reached *)
-| WDone (gs seen : list Z)       (* the while loop ran to its `else:` *)
-| WKeyErr                        (* bonds[current] raised KeyError (atom without adjacency entry) *)
-| WFuel.                         (* model artefact: out of fuel; never happens with `fuel_*` below (theorem for the fixed one) *)
+| WDone (seen : list Z) (attached : bool)   (* the while loop ran until the stack was empty *)
+| WKeyErr                                    (* bonds[stack.pop()] raised KeyError (atom without adjacency entry) *)
+| WFuel.                                     (* model artefact: out of fuel; impossible with `fuel_walk` (ReactorProofs.walk_ok) *)
 
-(*      while stack:
-            current = stack.pop()
-            if current in remain: break
-            if current in to_delete: continue
-            seen.add(current); global_seen.add(current)
-            stack.extend([x for x in bonds[current] if x not in global_seen])
-        else: delete.update(seen)                                                                     *)
-Fixpoint walk (bonds : graph) (remain del : list Z) (fuel : nat) (stack seen gs : list Z) : walk_res :=
+(*      for m in bonds[stack.pop()]:
+            if m in remain: attached = True
+            elif m not in to_delete and m not in seen: seen.add(m); stack.append(m)                      *)
+Definition visit (remain del : list Z) (st : list Z * list Z * bool) (m : Z) : list Z * list Z * bool :=
+  let '(stack, seen, att) := st in
+  if zmem m remain then (stack, seen, true)
+  else if negb (zmem m del) && negb (zmem m seen) then (m :: stack, zadd m seen, att)
+  else st.
+
+(*      while stack: for m in bonds[stack.pop()]: ...          (head of the list = top of the Python stack) *)
+Fixpoint walk (bonds : graph) (remain del : list Z) (fuel : nat) (stack seen : list Z) (att : bool) : walk_res :=
   match fuel with
   | O => WFuel
   | S f =>
       match stack with
-      | [] => WDone gs seen
+      | [] => WDone seen att
       | current :: rest =>
-          if zmem current remain then WBreak gs seen
-          else if zmem current del then walk bonds remain del f rest seen gs
-          else match zget bonds current with
-               | None => WKeyErr
-               | Some nb =>
-                   let seen' := zadd current seen in
-                   let gs' := zadd current gs in
-                   walk bonds remain del f (push (filter (fun x => negb (zmem x gs')) nb) rest) seen' gs'
-               end
+          match zget bonds current with
+          | None => WKeyErr
+          | Some nb => let '(stack', seen', att') := fold_left (visit remain del) nb (rest, seen, att) in
+                       walk bonds remain del f stack' seen' att'
+          end
       end
   end.
 
+(* every pop takes an atom that was added to `seen` exactly once: one round per atom of the structure *)
+Definition fuel_walk (bonds : graph) : nat := S (length bonds).
+
 (*  for n in bonds[x]:
-        if n in global_seen or n in remain: continue
-        seen = {n}; global_seen.add(n)
-        stack = [x for x in bonds[n] if x not in global_seen]
-        while ... else ...                                                                            *)
-Definition start_walk (bonds : graph) (remain del : list Z) (fuel : nat) (st : list Z * list Z) (n : Z)
-  : pyres (list Z * list Z) :=
-  let '(delete, gs) := st in
-  if zmem n gs || zmem n remain then Ok st
-  else match zget bonds n with
-       | None => Err KeyError
-       | Some nb =>
-           let gs1 := zadd n gs in
-           match walk bonds remain del fuel (push (filter (fun x => negb (zmem x gs1)) nb) []) [n] gs1 with
-           | WBreak gs' _ => Ok (delete, gs')
-           | WDone gs' seen => Ok (zunion seen delete, gs')
-           | WKeyErr => Err KeyError
-           | WFuel => Err OtherError
-           end
+        if n in to_delete or n in remain or n in delete or n in keep: continue
+        seen = {n}; stack = [n]; attached = False
+        while ...
+        if attached: keep.update(seen)  else: delete.update(seen)                                        *)
+Definition start_walk (bonds : graph) (remain del : list Z) (st : list Z * list Z) (n : Z) : pyres (list Z * list Z) :=
+  let '(delete, keep) := st in
+  if zmem n del || zmem n remain || zmem n delete || zmem n keep then Ok st
+  else match walk bonds remain del (fuel_walk bonds) [n] [n] false with
+       | WDone seen true => Ok (delete, zunion seen keep)
+       | WDone seen false => Ok (zunion seen delete, keep)
+       | WKeyErr => Err KeyError
+       | WFuel => Err OtherError
        end.
 
-Definition total_size (bonds : graph) : nat :=
-  fold_right (fun vl acc => (S (length (snd vl)) + acc)%nat) 0%nat bonds.
-(* the unchanged loop can process an atom once per copy on the stack: a generous quadratic bound *)
-Definition fuel_buggy (bonds : graph) : nat := S (total_size bonds + 2 * total_size bonds * total_size bonds).
-(* the repaired loop processes every atom at most once: linear bound, proved sufficient (ReactorProofs.walk_fixed_ok) *)
-Definition fuel_fixed (bonds : graph) : nat := S (total_size bonds).
+(*  for x in to_delete: for n in bonds[x]: ...  ;  to_delete.update(delete); return to_delete *)
+Definition get_deleted_loops (bonds : graph) (to_delete remain : list Z) : pyres (list Z * list Z) :=
+  fold_res (fun st x => match zget bonds x with
+                        | None => Err KeyError
+                        | Some nb => fold_res (start_walk bonds remain to_delete) nb st
+                        end) to_delete ([], []).
 
 Definition get_deleted_core (bonds : graph) (to_delete remain : list Z) : pyres (list Z) :=
-  let fuel := fuel_buggy bonds in
-  match fold_res (fun st x => match zget bonds x with
-                              | None => Err KeyError
-                              | Some nb => fold_res (start_walk bonds remain to_delete fuel) nb st
-                              end) to_delete ([], []) with
+  match get_deleted_loops bonds to_delete remain with
   | Err e => Err e
-  | Ok (delete, _) => Ok (zunion delete to_delete)      (* to_delete.update(delete); return to_delete *)
+  | Ok (delete, _) => Ok (zunion delete to_delete)
   end.
 
 (* {mapping[x] for x in self._to_delete} ; None = KeyError *)
@@ -135,65 +126,11 @@ Definition get_deleted (bonds : graph) (mapping : list (Z * Z)) (to_del : list Z
          end
   end.
 
-(* ====================================================================================================
-   The minimally repaired function.  Differences (marked FIX):
-     1. neighbours that are themselves to be deleted do not start a walk;
-     2. a walk that reaches a kept atom forgets its atoms (global_seen.difference_update(seen)) before `break`,
-        so that they cannot wall off later walks;
-     3. atoms already in global_seen are skipped when popped (every atom is processed once).
-   ==================================================================================================== *)
-Fixpoint walk_fixed (bonds : graph) (remain del : list Z) (fuel : nat) (stack seen gs : list Z) : walk_res :=
-  match fuel with
-  | O => WFuel
-  | S f =>
-      match stack with
-      | [] => WDone gs seen
-      | current :: rest =>
-          if zmem current remain then WBreak (zdiff gs seen) seen                          (* FIX 2 *)
-          else if zmem current del || zmem current gs then walk_fixed bonds remain del f rest seen gs   (* FIX 3 *)
-          else match zget bonds current with
-               | None => WKeyErr
-               | Some nb =>
-                   let seen' := zadd current seen in
-                   let gs' := zadd current gs in
-                   walk_fixed bonds remain del f (push (filter (fun x => negb (zmem x gs')) nb) rest) seen' gs'
-               end
-      end
-  end.
-
-Definition start_walk_fixed (bonds : graph) (remain del : list Z) (fuel : nat) (st : list Z * list Z) (n : Z)
-  : pyres (list Z * list Z) :=
-  let '(delete, gs) := st in
-  if zmem n gs || zmem n remain || zmem n del then Ok st                                   (* FIX 1 *)
-  else match zget bonds n with
-       | None => Err KeyError
-       | Some nb =>
-           let gs1 := zadd n gs in
-           match walk_fixed bonds remain del fuel (push (filter (fun x => negb (zmem x gs1)) nb) []) [n] gs1 with
-           | WBreak gs' _ => Ok (delete, gs')
-           | WDone gs' seen => Ok (zunion seen delete, gs')
-           | WKeyErr => Err KeyError
-           | WFuel => Err OtherError
-           end
-       end.
-
-Definition get_deleted_fixed_core (bonds : graph) (to_delete remain : list Z) : pyres (list Z) :=
-  let fuel := fuel_fixed bonds in
-  match fold_res (fun st x => match zget bonds x with
-                              | None => Err KeyError
-                              | Some nb => fold_res (start_walk_fixed bonds remain to_delete fuel) nb st
-                              end) to_delete ([], []) with
-  | Err e => Err e
-  | Ok (delete, _) => Ok (zunion delete to_delete)
-  end.
-
-Definition get_deleted_fixed (bonds : graph) (mapping : list (Z * Z)) (to_del : list Z) : pyres (list Z) :=
-  match to_del with
-  | [] => Ok []
-  | _ => match map_image mapping to_del with
-         | None => Err KeyError
-         | Some _ => get_deleted_fixed_core bonds (image mapping to_del) (kept mapping to_del)
-         end
+(* the intermediate sets `delete` and `keep` after the loops (compared with the real code by the correspondence) *)
+Definition get_deleted_sets (bonds : graph) (mapping : list (Z * Z)) (to_del : list Z) : pyres (list Z * list Z) :=
+  match map_image mapping to_del with
+  | None => Err KeyError
+  | Some _ => get_deleted_loops bonds (image mapping to_del) (kept mapping to_del)
   end.
 
 (* ---------- the specification (DESIGN Appendix A) ---------- *)
@@ -380,6 +317,36 @@ Definition fix_mapping_overlap (structures : list (list Z)) : pyres (list (list 
          end
   end.
 
+(* ---------- vocabulary of the theorems about _patcher and fix_mapping_overlap (proofs/ReactorProofs.v, props/C16.v) ---------- *)
+Definition adjT := list (Z * list (Z * bond)).
+Definition get2 (adj : adjT) (x y : Z) : option bond := zget (match zget adj x with Some l => l | None => [] end) y.
+
+(* x is an atom of the product that the replacement names (image of a replacement atom under the extended mapping) *)
+Definition named (tpl : template) (mp' : list (Z * Z)) (x : Z) : Prop :=
+  exists n, In n (keys (t_atoms tpl)) /\ truthy_get mp' n = Some x.
+
+(* the atom _patcher builds for a replacement atom ra: sa = the matched atom of the structure (a dummy for a new atom) *)
+Definition dummy_atom : atom := mkAtom 0 None 0 false None None.
+Definition built (ra : ratom) (sa : atom) (is_new : bool) : atom :=
+  match ra with
+  | RAny chg rad => mkAtom (a_num sa) (a_iso sa) chg rad None None
+  | RElem num iso chg rad h => mkAtom num iso chg rad (if is_new then h else None) None
+  end.
+
+(* a replacement atom that asks for what the matched atom already has *)
+Definition same_request (ra : ratom) (sa : atom) : Prop :=
+  match ra with
+  | RAny chg rad => chg = a_chg sa /\ rad = a_rad sa
+  | RElem num iso chg rad _ => num = a_num sa /\ iso = a_iso sa /\ chg = a_chg sa /\ rad = a_rad sa
+  end.
+Definition core (a : atom) : Z * option Z * Z * bool := (a_num a, a_iso a, a_chg a, a_rad a).
+
+Fixpoint all_disjoint (l : list (list Z)) : Prop :=
+  match l with
+  | [] => True
+  | a :: r => (forall b, In b r -> forall x, In x a -> ~ In x b) /\ all_disjoint r
+  end.
+
 (* ---------- comparison used by the correspondence runner (model value first, observed value second) ---------- *)
 (* hydrogens None in the model = "computed later by calc_implicit": any observed value is accepted there;
    stereo labels are not compared *)
@@ -393,6 +360,18 @@ Definition mol_struct_eqb (g h : mol) : bool :=
 Definition patch_res_eqb (model impl : pyres (mol * list (Z * Z))) : bool :=
   pyres_eqb (fun x y => mol_struct_eqb (fst x) (fst y) && list_eqb (pair_eqb Z.eqb Z.eqb) (snd x) (snd y)) model impl.
 Definition zlist_res_eqb (model impl : pyres (list Z)) : bool := pyres_eqb (list_eqb Z.eqb) (sorted_res model) impl.
+(* one _get_deleted case: the returned set (or exception) and, when the real call reached the loops, its local sets
+   `delete` and `keep` (each compared after sorting) *)
+Definition gd_case_eqb (g : graph) (mapping : list (Z * Z)) (to_del : list Z) (impl : pyres (list Z))
+  (impl_sets : option (list Z * list Z)) : bool :=
+  zlist_res_eqb (get_deleted g mapping to_del) impl &&
+  match impl_sets with
+  | None => true
+  | Some (d, k) => match get_deleted_sets g mapping to_del with
+                   | Ok (d', k') => list_eqb Z.eqb (zsort d') d && list_eqb Z.eqb (zsort k') k
+                   | Err _ => false
+                   end
+  end.
 (* fix_mapping_overlap: same numbers where nothing was renumbered, same SET of numbers per structure *)
 Definition overlap_res_eqb (model impl : pyres (list (list Z))) : bool :=
   pyres_eqb (list_eqb (fun a b => list_eqb Z.eqb (zsort a) (zsort b))) model impl.
